@@ -18,9 +18,10 @@ newaxis = None
 
 
 class DType:
-    def __init__(self, kind, name):
+    def __init__(self, kind, name, bits=64):
         self.kind = kind
         self.name = name
+        self.bits = bits
 
     def __repr__(self):
         return "dtype(%s)" % self.name
@@ -67,7 +68,11 @@ number = "number"
 float32 = DType("f", "float32")
 float64 = DType("f", "float64")
 int64 = DType("i", "int64")
-int32 = DType("i", "int32")
+int32 = DType("i", "int32", 32)
+int16 = DType("i", "int16", 16)
+int8 = DType("i", "int8", 8)
+signedinteger = "signedinteger"
+unsignedinteger = "unsignedinteger"
 uint32 = DType("i", "uint32")
 bool_ = DType("b", "bool")
 object_ = DType("O", "object")
@@ -79,7 +84,11 @@ def issubdtype(dt, k):
     if k is bool or k == bool_ and isinstance(k, DType):
         return dt.kind == "b"
     if k == integer or k is int:
+        return dt.kind in "iu"
+    if k == signedinteger:
         return dt.kind == "i"
+    if k == unsignedinteger:
+        return dt.kind == "u"
     if k == floating or k is float:
         return dt.kind == "f"
     if k == number:
@@ -94,7 +103,13 @@ def _dt(t):
         return t
     if t is bool or t is _np.bool_:
         return bool_
-    if t is int or t in (_np.int64, _np.int32, _np.uint32):
+    if t is _np.int8:
+        return int8
+    if t is _np.int16:
+        return int16
+    if t is _np.int32:
+        return int32
+    if t is int or t in (_np.int64, _np.uint32):
         return int64
     if t is float or t in (_np.float64, _np.float32):
         return float64
@@ -276,11 +291,17 @@ class SArray(SArrayBase):
     def __pow__(self, k):
         if k == 2:
             return SArray([_num(a) * _num(a) for a in self.items], int64 if self.dtype.kind == "b" else self.dtype)
+        if isinstance(k, float) and not float(k).is_integer():
+            return Opaque((len(self.items),))  # irrational powers only ever feed a stubbed kernel
         raise Unsupported("array ** %r" % (k,))
 
     def __neg__(self):
         if self.dtype.kind == "b":
             raise TypeError("The numpy boolean negative, the `-` operator, is not supported")
+        if self.dtype.kind == "i":
+            # two's complement: the most negative value of the dtype is its own negation
+            lo = -(2 ** (self.dtype.bits - 1))
+            return SArray([(ite(_eq(a, lo), lo, -_num(a)) if isinstance(a, Sym) else (lo if a == lo else -a)) for a in self.items], self.dtype)
         return SArray([-a for a in self.items], self.dtype)
 
     def __invert__(self):
@@ -715,10 +736,11 @@ def _py(v):
     return v
 
 
-def arange(a, b=None, step=1):
+def arange(a, b=None, step=1, dtype=None):
     if b is None:
         a, b = 0, a
-    return SArray(list(range(int(a), int(b), int(step))), int64)
+    d = _dt(dtype) if dtype is not None else int64
+    return SArray([Fraction(v) if d.kind == "f" else v for v in range(int(a), int(b), int(step))], d)
 
 
 def _shape1(n):
@@ -1189,6 +1211,8 @@ class Generator:
     def choice(self, a, size=None, replace=True):
         if replace:
             raise Unsupported("choice with replacement")
+        if isinstance(a, (int, _np.integer)) and not isinstance(a, bool):
+            a = range(int(a))  # numpy: an int population means arange(a)
         a = list(a.items if isinstance(a, SArray) else a)
         k = int(size)
         if k > len(a):
@@ -1197,8 +1221,30 @@ class Generator:
         return SArray([a[i] for i in p][:k])
 
     def integers(self, lo, hi=None, size=None):
-        self.log.append("integers")
-        return 1 if hi is None or lo <= 1 < hi else lo
+        if size is not None:
+            raise Unsupported("integers(size=)")
+        if hi is None:
+            lo, hi = 0, lo
+        lo, hi = int(lo), int(hi)
+        if self.mode == "identity":
+            self.log.append("integers")
+            return 1 if lo <= 1 < hi else lo
+        ctx = core.Ctx.cur
+
+        def fresh():
+            z = z3.Int(ctx.fresh_name("rng_int"))
+            ctx.assume(z3.And(z >= lo, z < hi))
+            return SNum(z)
+        if self.mode == "seeded":
+            key = (self.seed, self.calls, "int", lo, hi)
+            self.calls += 1
+            if key not in self.memo:
+                self.memo[key] = fresh()
+            v = self.memo[key]
+        else:
+            v = fresh()  # an unseeded generator: every draw is arbitrary
+        self.log.append(v)
+        return v
 
     def spawn(self, n):
         return [Generator(self.mode, self.log, self.memo, (self.seed, "spawn", i)) for i in range(n)]
@@ -1329,9 +1375,17 @@ def empty_like(a, dtype=None):
     return zeros_like(a, dtype)
 
 
-def clip(a, lo, hi):
+def clip(a, lo, hi, **kw):
     a = _arr(a)
-    return SArray([ite(x < lo, lo, ite(x > hi, hi, x)) if lo is not None and hi is not None else x for x in a.items], a.dtype)
+
+    def one(x):
+        x = _num(x)
+        if lo is not None:
+            x = ite(x < lo, lo, x)
+        if hi is not None:
+            x = ite(x > hi, hi, x)
+        return x
+    return SArray([one(x) for x in a.items], a.dtype if a.dtype.kind == "f" or (isinstance(lo, (int, type(None))) and isinstance(hi, (int, type(None)))) else float64)
 
 
 def abs(a):  # noqa: A001
@@ -1414,3 +1468,117 @@ def finfo(t):
     return _np.finfo(_np.float64)
 
 
+
+
+# ---------------------------------------------------------------------------
+# interpolation / grids / opaque matrices (PEP and q-value glue, check C06)
+# ---------------------------------------------------------------------------
+def interp(x, xp, fp, left=None, right=None):
+    """numpy's arr_interp for len(xp) <= 8 (LIKELY_IN_CACHE_SIZE: linear search, exact also for an
+    xp that is not increasing); longer xp must be provably non-decreasing."""
+    xs, xp, fp = _arr(x), _arr(xp), _arr(fp)
+    n = len(xp)
+    if n == 0:
+        raise ValueError("array of sample points is empty")
+    if len(fp) != n:
+        raise ValueError("fp and xp are not of the same length.")
+    if n > 8:
+        for a, b in zip(xp.items, xp.items[1:]):
+            if _truth(_num(a) > _num(b)):
+                raise Unsupported("np.interp with more than 8 sample points that are not increasing")
+    lval = fp.items[0] if left is None else left
+    rval = fp.items[-1] if right is None else right
+    out = []
+    for v in xs.items:
+        v = _num(v)
+        if n == 1:
+            out.append(lval if _truth(v < _num(xp.items[0])) else rval if _truth(v > _num(xp.items[0])) else fp.items[0])
+            continue
+        if _truth(v > _num(xp.items[-1])):
+            out.append(rval)
+            continue
+        if _truth(v < _num(xp.items[0])):
+            out.append(lval)
+            continue
+        i = 1
+        while i < n and _truth(v >= _num(xp.items[i])):
+            i += 1
+        j = i - 1
+        if j == n - 1 or _truth(_eq(xp.items[j], v)):
+            out.append(_tofloat(fp.items[j]))
+            continue
+        slope = sdiv(_num(fp.items[j + 1]) - _num(fp.items[j]), _num(xp.items[j + 1]) - _num(xp.items[j]))
+        out.append(slope * (v - _num(xp.items[j])) + _num(fp.items[j]))
+    return SArray(out, float64)
+
+
+def linspace(a, b, num=50):
+    num = int(num)
+    if num == 1:
+        return SArray([_tofloat(a)], float64)
+    step = sdiv(_num(b) - _num(a), num - 1)
+    return SArray([_num(a) + step * i for i in range(num - 1)] + [_tofloat(b)], float64)
+
+
+class Opaque:
+    """A matrix/vector whose entries are irrelevant because it is only ever handed to a numeric
+    kernel that is stubbed by its contract; only the shape is tracked."""
+
+    def __init__(self, shape):
+        self.shape = tuple(shape)
+
+    def __len__(self):
+        return self.shape[0]
+
+    def dot(self, o):
+        return _odot(self, o)
+
+    def __matmul__(self, o):
+        return _odot(self, o)
+
+    def __rmatmul__(self, o):
+        return _odot(o, self)
+
+    def __getitem__(self, k):
+        return Opaque(self.shape)
+
+    def __setitem__(self, k, v):
+        pass
+
+    def _same(self, o=None):
+        return Opaque(self.shape)
+
+    __add__ = __radd__ = __sub__ = __rsub__ = __mul__ = __rmul__ = __truediv__ = __pow__ = _same
+    T = property(lambda self: Opaque(self.shape[::-1]))
+
+
+def _oshape(o):
+    return o.shape if isinstance(o, (Opaque, SArray, SArray2)) else ()
+
+
+def _odot(a, b):
+    sa, sb = _oshape(a), _oshape(b)
+    if len(sa) == 2 and len(sb) == 2:
+        if sa[1] != sb[0]:
+            raise ValueError("shapes %s and %s not aligned" % (sa, sb))
+        return Opaque((sa[0], sb[1]))
+    if len(sa) == 2 and len(sb) == 1:
+        if sa[1] != sb[0]:
+            raise ValueError("shapes %s and %s not aligned" % (sa, sb))
+        return Opaque((sa[0],))
+    raise Unsupported("opaque product of shapes %s %s" % (sa, sb))
+
+
+def tril(m, k=0):
+    return Opaque(m.shape)
+
+
+def diag(v, k=0):
+    n = len(v)
+    return Opaque((n, n))
+
+
+def sqrt(a):
+    if isinstance(a, (SArray, Opaque)):
+        return Opaque(a.shape)
+    raise Unsupported("sqrt of a scalar")
